@@ -31,6 +31,8 @@ type vfRateScanner struct {
 	n       int64
 	slowN   int64         // the first slowN probes take slowFor (all workers busy: nobody asks the limiter meanwhile)
 	slowFor time.Duration
+	hangAt  int64 // this probe alone takes hangFor (one worker: the sender is held up, demand piles up behind it)
+	hangFor time.Duration
 }
 
 func (s *vfRateScanner) Scan(ctx context.Context, r *scan.Request) (scan.Result, error) {
@@ -38,8 +40,12 @@ func (s *vfRateScanner) Scan(ctx context.Context, r *scan.Request) (scan.Result,
 	s.mu.Lock()
 	s.times = append(s.times, t)
 	s.mu.Unlock()
-	if atomic.AddInt64(&s.n, 1) <= s.slowN {
+	k := atomic.AddInt64(&s.n, 1)
+	if k <= s.slowN {
 		time.Sleep(s.slowFor)
+	}
+	if k == s.hangAt {
+		time.Sleep(s.hangFor)
 	}
 	return nil, nil
 }
@@ -108,7 +114,7 @@ func vfRateEvent(rate string, path string, workers int, times []int, expected in
 		panic(err)
 	}
 	return map[string]interface{}{"ev": "Run", "rate": rate, "chars": strings.Split(rate, ""), "path": path, "workers": workers, "n": n,
-		"winMs": int(w / time.Millisecond), "winNs": int(w % time.Millisecond), "times": times, "expected": expected}
+		"winMs": int(w / time.Millisecond), "winNs": int(w % time.Millisecond), "times": times, "expected": expected, "tight": false}
 }
 
 func TestVfRate(t *testing.T) {
@@ -120,10 +126,13 @@ func TestVfRate(t *testing.T) {
 		rate    string
 		workers int
 		stall   bool
+		hangAt  int // high rates: one probe hangs for 60 ms, then demand is unbounded; judged with the measured lateness only
 	}
-	jobs := []job{{"400/s", 1, false}, {"200/s", 3, false}, {"40/100ms", 100, false}, {"3/10ms", 7, false}, {"150/s", 50, true}}
+	jobs := []job{{"400/s", 1, false, 0}, {"200/s", 3, false, 0}, {"40/100ms", 100, false, 0}, {"3/10ms", 7, false, 0}, {"150/s", 50, true, 0},
+		{"10000/s", 1, true, 20}, {"4000/s", 1, true, 50}}
 	if thorough {
-		jobs = append(jobs, job{"1000/s", 1000, false}, job{"60/200ms", 2, false}, job{"100/s", 100, true}, job{"1/5ms", 1, false})
+		jobs = append(jobs, job{"1000/s", 1000, false, 0}, job{"60/200ms", 2, false, 0}, job{"100/s", 100, true, 0}, job{"1/5ms", 1, false, 0},
+			job{"50000/s", 1, true, 100}, job{"2500/s", 2, true, 30})
 	}
 	var mu sync.Mutex
 	var wg sync.WaitGroup
@@ -156,12 +165,17 @@ func TestVfRate(t *testing.T) {
 				panic(err)
 			}
 			sc := &vfRateScanner{t0: time.Now()}
-			if j.stall {
+			tgt, ntgt := subnet, 128
+			if j.hangAt > 0 {
+				sc.hangAt, sc.hangFor = int64(j.hangAt), 60*time.Millisecond
+				_, tgt, _ = net.ParseCIDR("10.90.0.0/23")
+				ntgt = 512
+			} else if j.stall {
 				sc.slowN, sc.slowFor = int64(j.workers), 700*time.Millisecond
 			}
 			ctx, cancel := context.WithCancel(context.Background())
 			engine := o.newScanEngine(ctx, sc)
-			done, errc := engine.Start(ctx, &scan.Range{DstSubnet: subnet, Ports: o.portRanges})
+			done, errc := engine.Start(ctx, &scan.Range{DstSubnet: tgt, Ports: o.portRanges})
 			go func() {
 				for range errc {
 				}
@@ -172,7 +186,8 @@ func TestVfRate(t *testing.T) {
 			}
 			cancel()
 			sc.mu.Lock()
-			ev := vfRateEvent(j.rate, "app", j.workers, append([]int{}, sc.times...), 128)
+			ev := vfRateEvent(j.rate, "app", j.workers, append([]int{}, sc.times...), ntgt)
+			ev["tight"] = j.hangAt > 0
 			sc.mu.Unlock()
 			return ev
 		})
